@@ -18,6 +18,9 @@ NotConverged(w, o) ==
   \cup {[f |-> "assigned-but-not-scraped", t |-> t] :
       t \in {t \in TargetsW(w) : EligibleW(w, o, t) /\ Cardinality(HoldersW(w, t)) = 1 /\
                \E i \in HoldersW(w, t) : \E x \in R(w.shards[i].status) : x.h = t /\ x.health # "up"}}
+  \cup {[f |-> "assigned-but-not-in-what-prometheus-runs-with", t |-> t] :
+      t \in {t \in TargetsW(w) : EligibleW(w, o, t) /\ Cardinality(HoldersW(w, t)) = 1 /\
+               \E i \in HoldersW(w, t) : t \notin R(w.shards[i].loaded)}}
   \cup {[f |-> "transfer-pending", t |-> x.h, shard |-> i] : <<i, x>> \in
       {<<i, x>> \in (1..w.nsh) \X UNION {R(w.shards[i].status) : i \in 1..w.nsh} : x \in R(w.shards[i].status) /\ x.state # ""}}
   \cup {[f |-> "undiscovered-target-assigned", t |-> x.h, shard |-> i] : <<i, x>> \in
